@@ -447,6 +447,10 @@ func (p *parser) parseASCII(minLength, maxLength int) (item ast.ItemNode, ok boo
 
 			if _, ok := p.variableNames[t.val]; ok {
 				p.errorf(t, "duplicated variable name %q", t.val)
+				if minLength > ast.MAX_BYTE_SIZE {
+					// no item can be longer; do not build a placeholder of an input-chosen size
+					minLength = ast.MAX_BYTE_SIZE
+				}
 				return ast.NewASCIINode(strings.Repeat("*", minLength)), true
 			} else {
 				p.variableNames[t.val] = true
